@@ -640,6 +640,7 @@ pub fn plan(seed: u64, prop: &str, run: u64, sem: Sem) -> Plan {
         }
         b_variants = vec![good, bad];
     }
+    let uri_plus = !semantic && env.chance(1, 3);
     // semantic runs: in a quarter of them a second folder shares a module with the first
     let shared_folder = semantic && wl.chance(1, 4);
     if shared_folder {
@@ -701,7 +702,9 @@ pub fn plan(seed: u64, prop: &str, run: u64, sem: Sem) -> Plan {
                 }
             }
             if b.open.contains_key(&p) {
-                if b.sw.saves && b.sched.chance(1, 2) && b.disk.contains_key(&p) {
+                // (under the %2B spelling the server takes the buffer for another document than
+                // the file, so saving it would be an external modification of a cached file)
+                if b.sw.saves && b.sched.chance(1, 2) && b.disk.contains_key(&p) && !(uri_plus && p.contains('+')) {
                     b.disk.insert(p.clone(), b.open[&p].clone());
                     b.events.push(Ev::Save { path: p.clone() });
                 }
@@ -784,6 +787,9 @@ pub fn plan(seed: u64, prop: &str, run: u64, sem: Sem) -> Plan {
             sem: sem_targets,
             folder_b: sw.second_folder || shared_folder,
             version_base: *env.pick(&[1, 1, 1, 0, 100_000, i32::MAX - 40, -5]),
+            // only outside semantic runs: under that spelling the server (consistently) takes
+            // the open buffer for another document than the module it loads from disk
+            uri_plus_encoded: uri_plus,
         },
         programs,
         targets,
